@@ -1,7 +1,7 @@
 #!/bin/bash
 # tools/intake_queue.sh <variants e.g. "c d"> C03 C16 ...   run seed_intake for the given variants of each property,
-# serialised by a lock (one scratch worktree, one selftest area).  WT_PREFIX selects the sub-agents' worktrees.
-exec 9>/root/scratch/intake.lock
+# serialised by a lock per LANE (each lane has its own scratch worktree and selftest area).  WT_PREFIX selects the sub-agents' worktrees.
+exec 9>/root/scratch/intake${LANE:+-$LANE}.lock
 flock 9
 vs=$1; shift
 for p in "$@"; do for v in $vs; do /verif/tools/seed_intake.sh $p $v > /root/scratch/intake_${p}${v}.log 2>&1; tail -3 /root/scratch/intake_${p}${v}.log | cut -c1-400 >> /root/scratch/intake_summary.log; done; done
